@@ -275,3 +275,43 @@ Proof.
     + intros [p [n [Hp [Hn HF]]]]. exists p. split; [exact Hp|]. apply existsb_exists. exists n. split; [exact Hn|].
       unfold memb. apply (existsb_eqb_In node_eqb node_eqb_spec). exact HF.
 Qed.
+
+(* ---- Consumer(ids...) of a connector's router --------------------------------------------------------------- *)
+Lemma router_consumer_exact_l offered ids :
+  (forall l, router_consumer offered ids = Some l <-> ids <> [] /\ (forall p, In p ids -> In p offered) /\ l = ids) /\
+  (router_consumer offered ids = None <-> ids = [] \/ exists p, In p ids /\ ~ In p offered).
+Proof.
+  assert (F : forallb (fun p => existsb (pid_eqb p) offered) ids = true <-> forall p, In p ids -> In p offered).
+  { rewrite forallb_forall. split; intros H p Hp.
+    - apply (existsb_eqb_In pid_eqb pid_eqb_spec). apply H. exact Hp.
+    - apply (existsb_eqb_In pid_eqb pid_eqb_spec). apply H. exact Hp. }
+  unfold router_consumer. destruct ids as [|i ids']; [split; [intros l; split; [discriminate | intros [H _]; congruence] | split; auto]|].
+  set (ids := i :: ids') in *.
+  destruct (forallb (fun p => existsb (pid_eqb p) offered) ids) eqn:E.
+  - split.
+    + intros l. split; [intros H; inversion H; subst; split; [discriminate | split; [apply F; reflexivity | reflexivity]] | intros [_ [_ ->]]; reflexivity].
+    + split; [discriminate|]. intros [H|[p [Hp Np]]]; [discriminate|]. exfalso. apply Np. apply F; [reflexivity | exact Hp].
+  - split.
+    + intros l. split; [discriminate|]. intros [_ [H _]]. apply F in H. congruence.
+    + split; [|reflexivity]. intros _. right.
+      assert (NE : ~ forall p, In p ids -> In p offered) by (intros H; apply F in H; congruence).
+      clear E F. induction ids as [|a r IH]; [exfalso; apply NE; intros p []|].
+      destruct (existsb (pid_eqb a) offered) eqn:Ea.
+      * destruct IH as [p [Hp Np]].
+        { intros H. apply NE. intros p [<-|Hp]; [apply (existsb_eqb_In pid_eqb pid_eqb_spec); exact Ea | apply H; exact Hp]. }
+        exists p. split; [right; exact Hp | exact Np].
+      * exists a. split; [left; reflexivity|]. intros H. apply (existsb_eqb_In pid_eqb pid_eqb_spec) in H. congruence.
+Qed.
+
+Lemma route_deliver_exact_l g n ids :
+  (forall ds, route_deliver g n ids = Some ds ->
+     ids <> [] /\ (forall p, In p ids -> In p (router_pids g n)) /\ ds = flat_map (fun p => deliver g (Cap p)) ids) /\
+  (route_deliver g n ids = None <-> ids = [] \/ exists p, In p ids /\ ~ In p (router_pids g n)).
+Proof.
+  destruct (router_consumer_exact_l (router_pids g n) ids) as [H1 H2]. unfold route_deliver.
+  destruct (router_consumer (router_pids g n) ids) as [l|] eqn:E.
+  - split.
+    + intros ds H. inversion H; subst. destruct (proj1 (H1 l) eq_refl) as [A [B ->]]. tauto.
+    + split; [discriminate|]. intros H. apply H2 in H. discriminate.
+  - split; [intros ds H; discriminate|]. split; [intros _; apply H2; reflexivity | reflexivity].
+Qed.
